@@ -274,7 +274,42 @@ func constByteStores(d *DPath) map[int64]string {
 	return out
 }
 
+// varintLeafFromLayout: the leaf of VarInt.Bytes read from the bytes the path returns (engine W), whatever they
+// are built with - a literal with byte(v), byte(v>>8), ... runs, appends, a filled buffer.
+func varintLeafFromLayout(d *DPath) (string, bool) {
+	if d.Ret == nil || len(d.Ret.Results) != 1 || theProg == nil {
+		return "", false
+	}
+	fn := d.Ret.Parent()
+	w := newWEval(theProg, fn)
+	l := w.eval(d.Ret.Results[0])
+	if l == nil {
+		return "", false
+	}
+	items := []*Lay{l}
+	if l.K == "seq" {
+		items = l.Items
+	}
+	if bad, _ := l.hasUnknown(); bad || len(items) == 0 || len(items) > 2 {
+		return "", false
+	}
+	valueOK := func(it *Lay) bool { return it.K == "le" && it.Sh == 0 && (it.S == "p0" || it.S == "uint16(p0)" || it.S == "uint32(p0)" || it.S == "uint64(p0)" || it.S == "byte(p0)" || it.S == "uint8(p0)") }
+	if len(items) == 1 {
+		if valueOK(items[0]) && items[0].W == 1 {
+			return "prefix=value len=1", true
+		}
+		return "", false
+	}
+	if items[0].K != "const" || len(items[0].S) != 2 || !valueOK(items[1]) {
+		return "", false
+	}
+	return fmt.Sprintf("prefix=0x%s LE%d@1 len=%d", items[0].S, items[1].W*8, 1+items[1].W), true
+}
+
 func varintBytesLeaf(d *DPath) string {
+	if s, ok := varintLeafFromLayout(d); ok {
+		return s
+	}
 	st := constByteStores(d)
 	prefix := st[0]
 	if prefix == "" {
